@@ -69,6 +69,7 @@ type c04Res struct {
 	Reveals  []vfReveal  `json:"reveals"`
 	Marks    []vfMark    `json:"marks"`
 	Returned bool        `json:"returned"`
+	V6       bool        `json:"v6"`
 	RelayFirst *vfBytes  `json:"relay_first"`
 	EarlyAnswered bool   `json:"early_answered"` // banner / echo of the early data arrived before the client sent anything more
 	Ms       int64       `json:"ms"`
@@ -228,6 +229,7 @@ func c04Run(s *vfStation, c c04Case) (res c04Res) {
 		res.Ms = time.Since(t0).Milliseconds()
 	}()
 	phantom := s.freshPhantom()
+	res.V6 = phantom.To4() == nil
 	banner := vfLCG(c.BannerSeed, c.BannerLen)
 	ln, echoGot, echoConns := c04Echo(banner)
 	if ln == nil {
